@@ -872,6 +872,26 @@ def suite_compile(ck, legal_report=False):
 
 # ------------------------------------------------------------------------------------------------ replay
 
+def replay_legal(ck, case):
+    """re-evaluate a `comp.legal` failing input: `Legal` of the driver against the real verdict; 1 when they still differ"""
+    files = [tuple(x) for x in case['specs']]
+    for p, t in files:
+        print(' --- %s\n%s' % (p, t.rstrip()))
+    pre = prepare(files)
+    if pre[0] != 'ok':
+        print(' outside the modelled input now: %s' % pre[1])
+        return 0
+    hy = _driver(ck, [dict(pre[2], op='comp.hyps')])[0]
+    st = faithful.compile_guarded(files, fast=False)
+    print(' Legal = %s%s ; the compiler answers: %s %s' % (hy.get('legal'), '' if hy.get('legal') else ' (fails: %s)' % hy.get('why'),
+                                                           st[0], '' if st[0] == 'ok' else st[1]))
+    before = len(ck.violations)
+    judge_legal(ck, files, case.get('origin', 'replay'), hy, st, flags=pre[3], report=True)
+    still = len(ck.violations) > before or bool(ck.known_hits)
+    print(' => the recorded failure %s' % ('still shows' if still else 'no longer shows'))
+    return 1 if still else 0
+
+
 def replay_case(ck, case):
     """re-evaluate a `comp.members` failing input; True when it still shows"""
     files = [tuple(x) for x in case['specs']]
